@@ -113,6 +113,8 @@ func vPeerText(p map[string]interface{}) string {
 		return "[::ffff:" + ip + "]:40000"
 	case "v6":
 		return "[2001:db8::1]:40000"
+	case "xff_loopback":
+		return "127.0.0.1:40000"
 	case "noport":
 		return ip
 	case "garbage":
@@ -149,6 +151,11 @@ func runC11(t *testing.T, cases []map[string]interface{}, ev *vEvents) {
 			cert = w.craftedRoleCert("svc", vCorruptExt(ext))
 		}
 		remote := vPeerText(vMap(c, "peer"))
+		var fwd map[string]string
+		if vStr(vMap(c, "peer"), "fam") == "xff_loopback" {
+			named := vIP(vInt(vMap(c, "peer"), "addr")).String()
+			fwd = map[string]string{"X-Forwarded-For": named, "X-Real-Ip": named}
+		}
 		out := map[string]interface{}{"auth": false, "panic": false, "blocks": []map[string]interface{}{}, "cn": "", "class": "none"}
 		func() {
 			defer func() {
@@ -171,7 +178,7 @@ func runC11(t *testing.T, cases []map[string]interface{}, ev *vEvents) {
 				}
 			case "checkauth", "checkauth_pw":
 				r := w.Do(vReq{Method: "POST", Path: "/certgen/svc?type=x509", PubKey: vPEMPub(&vUserEC.PublicKey), BodyType: "multipart",
-					Form: url.Values{"duration": {"1h"}}, Chains: w.verifiedChains(cert), Remote: remote})
+					Form: url.Values{"duration": {"1h"}}, Chains: w.verifiedChains(cert), Remote: remote, Headers: fwd})
 				info := w.parseIssued(r.Body)
 				out["auth"] = info.Kind != "none"
 				out["panic"] = r.Panic != ""
@@ -179,7 +186,7 @@ func runC11(t *testing.T, cases []map[string]interface{}, ev *vEvents) {
 				out["cn"] = info.CN
 			case "refresh":
 				r := w.Do(vReq{Method: "POST", Path: refreshRoleRequestingCertPath, Form: url.Values{"pubkey": {vB64u(vKeyByID("p256").der)}},
-					Chains: w.verifiedChains(cert), Remote: remote})
+					Chains: w.verifiedChains(cert), Remote: remote, Headers: fwd})
 				info := w.parseIssued(r.Body)
 				out["auth"] = info.Kind != "none"
 				out["panic"] = r.Panic != ""
